@@ -15,7 +15,7 @@ TSG_SRC := $(filter-out %tsgCudaKernels.cu %tsgHipKernels.hip.cpp %tsgDpcppKerne
 
 INC := -I$(B)/config -I$(REPO)/SparseGrids -I$(REPO)/DREAM -I$(REPO)/DREAM/Optimization -I$(REPO)/InterfaceTPL -I$(REPO)/Addons -I$(REPO)/Config
 
-FLAGS_asan := -O1 -g -fno-omit-frame-pointer -fsanitize=address,undefined -fno-sanitize-recover=undefined
+FLAGS_asan := -O1 -g -fno-omit-frame-pointer -fsanitize=address,undefined -fno-sanitize=null,nonnull-attribute,returns-nonnull-attribute -fno-sanitize-recover=undefined
 FLAGS_thr  := -O1 -g -fno-omit-frame-pointer -fsanitize=thread
 FLAGS_omp  := -O1 -g -fno-omit-frame-pointer -fopenmp -fsanitize=thread
 FLAGS_ref  := -O1 -g
